@@ -1,0 +1,56 @@
+//! Verification hook (compiled only with `--cfg graphql_client_verif`): append what the derive
+//! resolved for one struct (paths, options, generated tokens) to the file named by
+//! `GRAPHQL_CLIENT_VERIF_TRACE`, one JSON object per line.
+
+use std::io::Write;
+use std::path::Path;
+
+fn esc(s: &str) -> String {
+    let mut out = String::with_capacity(s.len() + 2);
+    for c in s.chars() {
+        match c {
+            '"' => out.push_str("\\\""),
+            '\\' => out.push_str("\\\\"),
+            '\n' => out.push_str("\\n"),
+            '\r' => out.push_str("\\r"),
+            '\t' => out.push_str("\\t"),
+            c if (c as u32) < 0x20 => out.push_str(&format!("\\u{:04x}", c as u32)),
+            c => out.push(c),
+        }
+    }
+    out
+}
+
+pub(crate) fn trace_derive(ast: &syn::DeriveInput, query_path: &Path, schema_path: &Path) {
+    let trace = match std::env::var("GRAPHQL_CLIENT_VERIF_TRACE") {
+        Ok(t) => t,
+        Err(_) => return,
+    };
+    let (dump, outcome) = match crate::build_graphql_client_derive_options(ast, query_path.to_path_buf()) {
+        Ok(options) => {
+            let dump = options.verif_dump();
+            let outcome = match graphql_client_codegen::generate_module_token_stream(
+                query_path.to_path_buf(),
+                schema_path,
+                options,
+            ) {
+                Ok(ts) => format!("\"status\":\"ok\",\"tokens\":\"{}\"", esc(&ts.to_string())),
+                Err(e) => format!("\"status\":\"err\",\"msg\":\"{}\"", esc(&e.to_string())),
+            };
+            (dump, outcome)
+        }
+        Err(e) => (String::new(), format!("\"status\":\"options_err\",\"msg\":\"{}\"", esc(&e.to_string()))),
+    };
+    let line = format!(
+        "{{\"event\":\"OptionsBuilt\",\"ident\":\"{}\",\"manifest_dir\":\"{}\",\"query_path\":\"{}\",\"schema_path\":\"{}\",\"dump\":\"{}\",{}}}\n",
+        esc(&ast.ident.to_string()),
+        esc(&std::env::var("CARGO_MANIFEST_DIR").unwrap_or_default()),
+        esc(&query_path.display().to_string()),
+        esc(&schema_path.display().to_string()),
+        esc(&dump),
+        outcome
+    );
+    if let Ok(mut f) = std::fs::OpenOptions::new().create(true).append(true).open(trace) {
+        let _ = f.write_all(line.as_bytes());
+    }
+}
